@@ -138,3 +138,11 @@ func VerifPointwiseInto(c, a, b *[N]int32) {
 	polyPointWiseMontgomery(&pc, &poly{*a}, &poly{*b})
 	*c = pc.coeffs
 }
+
+// VerifPolyZUnpackInto is VerifPolyZUnpack with the destination holding the caller's previous contents (the
+// signing loop unpacks a fresh mask into the same vector on every attempt).
+func VerifPolyZUnpackInto(dst *[N]int32, a []uint8) {
+	p := poly{*dst}
+	polyZUnpack(&p, a)
+	*dst = p.coeffs
+}
